@@ -24,6 +24,7 @@ SHAPES = {
     "n3": [("ON", 0), "W", ("ON", 1), "W", ("OFF", 0), ("ON", 2), "W", ("OFF", 1), "W", ("OFF", 2), "W"],
     "n4": [("ON", 0), "W", ("ON", 1), "W", ("OFF", 0), ("ON", 2), "W", ("OFF", 1), ("ON", 3), "W", ("OFF", 2), "W", ("OFF", 3), "W"],
     "ev3": [("TS", 3, 4), "W", ("KS", KEYS[3]), ("ON", 0), "W", ("PC", 5), "W", ("OFF", 0), ("TS", 4, 4), "W", ("KS", KEYS[5])],
+    "evrep": [("TS", 3, 4), ("KS", KEYS[3]), ("ON", 0), "W", ("TS", 3, 4), "W", ("OFF", 0), ("KS", KEYS[3]), "W"],
     "n3sim": [("ON", 0), ("ON", 1), ("ON", 2), "W", ("OFF", 0), "W", ("OFF", 1), ("OFF", 2)],
 }
 
@@ -78,12 +79,41 @@ def q_split(shape, ncaps, wmax, cmax):
                  desc=f"split({ncaps} symbolic capacities) on shape {shape}")
 
 
+def q_split_twice(shape, wmax, cmax):
+    """a second split of the same object starts from scratch (no memory of notes cut by the first)"""
+    def fn(ctx):
+        b = build_rel(ctx, SHAPES[shape], pitch=(60, 61), chan=(0, 1), wait=(1, wmax))
+        ctx.assume(distinct_keys_or_disjoint(ctx, b.notes))
+        c1 = ctx.int("cap_first", 1, cmax)
+        c2 = ctx.int("cap_second", 1, cmax)
+        tau = ctx.int("tau", 0, wmax * len(b.waits) + 1)
+        src = rel_sequence(b.msgs)
+        src.split([c1])
+        pieces = src.split([c2])
+        allev = []
+        off_t = 0
+        wf = []
+        for pc_ in pieces:
+            er, dr = rel_events(raw_rel(pc_))
+            wf.append(wellformed_alternation(er))
+            allev.extend([Ev(e.t + off_t, e.m) for e in er])
+            off_t = off_t + dr
+        ctx.must("pieces_wellformed", and_(wf), disc="second split")
+        ctx.must("roll_conserved", roll_equal(b.all_events, allev, tau, keys=keys_of(b.all_events)), disc="second split")
+        ctx.must("durations_sum", eq(off_t, b.total), disc="second split")
+        return [[obs_rel(raw_rel(p)) for p in pieces]]
+    return Query(f"twice/{shape}/w{wmax}c{cmax}", fn, ["pieces_wellformed", "roll_conserved", "durations_sum"],
+                 desc="split called twice on the same sequence")
+
+
 def queries(tier, seed):
     qs = []
     if tier == "quick":
-        for s in ["n1", "n1b", "n2ov", "n2sim", "n2seq", "ev", "evend", "evmid"]:
+        for s in ["n1", "n1b", "n2ov", "n2sim", "n2seq", "ev", "evend", "evmid", "evrep"]:
             for nc in (1, 2):
                 qs.append(q_split(s, nc, 40, 60))
+        qs.append(q_split_twice("n1", 30, 40))
+        qs.append(q_split_twice("n2ov", 12, 30))
     else:
         for s in SHAPES:
             for nc in (1, 2, 3):
@@ -93,4 +123,6 @@ def queries(tier, seed):
                     qs.append(q_split(s, nc, 20, 60))
                     continue
                 qs.append(q_split(s, nc, 60, 80))
+        for s in ("n1", "n2ov", "n2sim", "ev"):
+            qs.append(q_split_twice(s, 20, 50))
     return qs
